@@ -651,7 +651,7 @@ valid_pil_lto_to_time		(vbi_pil		pil,
 
 	if (seconds_east < 0) {
 		/* Note start can be negative. */
-		if (unlikely (start < -seconds_east)) {
+		if (unlikely (start < TIME_MIN - seconds_east)) {
 			errno = EOVERFLOW;
 			return (time_t) -1;
 		}
@@ -687,7 +687,7 @@ valid_pil_lto_to_time		(vbi_pil		pil,
 
 	if (seconds_east > 0) {
 		/* Note start can be negative. */
-		if (unlikely (start < seconds_east)) {
+		if (unlikely (start < TIME_MIN + seconds_east)) {
 			errno = EOVERFLOW;
 			return (time_t) -1;
 		}
